@@ -146,6 +146,18 @@ func c03Spaces(tier string) []*explore.Space {
 			}
 		}
 	}
+	// mixed content with whitespace-only text nodes: they are nodes like any other for node()/text() steps
+	var c6 []hostCase
+	for _, pre := range [][]gen.Step{nil, {gen.Ch("*")}, {gen.DSlash()}} {
+		for _, h := range []gen.Step{gen.Ch("node()"), gen.Ch("text()"), gen.Ch("*"), gen.Ch("a"), gen.Ch("comment()")} {
+			for _, p := range pp {
+				abs := len(pre) > 0 && pre[0].Abbr == "//"
+				ws := append(append([]gen.Step{}, pre...), withPred(h, p))
+				bs := append(append([]gen.Step{}, pre...), h)
+				c6 = append(c6, hostCase{&gen.Path{Abs: abs, Steps: ws}, &gen.Path{Abs: abs, Steps: bs}})
+			}
+		}
+	}
 	// positional first predicate followed by one or two boolean predicates
 	var c2 []hostCase
 	sm := smallAtoms()
@@ -211,6 +223,7 @@ func c03Spaces(tier string) []*explore.Space {
 			hostSpace("Pos4xM2-3", "positional child steps inside a predicate x M(2,3)", c4, func() []*doc.Tree { return uniM(2, 3) }, "C03"),
 			hostSpace("Pos4xT4", "positional child steps inside a predicate x T(<=4)", c4, func() []*doc.Tree { return uniT(4) }, "C03"),
 			hostSpace("Pos5xFlatNS4", "child-step[positional] with prefixed / unprefixed name tests x two parents with 1..4 children over {a, p:a, q:a, b}", c5, func() []*doc.Tree { return uniFlatNS(4) }, "C03"),
+			hostSpace("Pos6xWS4", "child-step[positional] over mixed content with whitespace-only text nodes (1..4 children over {a, ' ', 'x', newline+blanks, comment})", c6, func() []*doc.Tree { return uniMixedWS(4) }, "C03"),
 			hostSpace("Pos1xWide6", "prefix/child-step[positional] x one parent with 5..6 children", c1, func() []*doc.Tree { return uniWide(6) }, "C03"),
 			hostSpace("Pos3xWide6", "(F)[n] x one parent with 5..6 children", c3, func() []*doc.Tree { return uniWide(6) }, "C03"),
 			hostSpace("Pos3xT5", "(F)[n] x T(<=5)", c3, func() []*doc.Tree { return uniT(5) }, "C03"),
@@ -223,6 +236,7 @@ func c03Spaces(tier string) []*explore.Space {
 		hostSpace("Pos3xM2-2", "(F)[n] x M(2,2)", c3, func() []*doc.Tree { return uniM(2, 2) }, "C03"),
 		hostSpace("Pos4xM2-2", "positional child steps inside a predicate x M(2,2)", c4, func() []*doc.Tree { return uniM(2, 2) }, "C03"),
 		hostSpace("Pos5xFlatNS3", "child-step[positional] with prefixed / unprefixed name tests x two parents with 1..3 children over {a, p:a, q:a, b}", c5, func() []*doc.Tree { return uniFlatNS(3) }, "C03"),
+		hostSpace("Pos6xWS3", "child-step[positional] over mixed content with whitespace-only text nodes (1..3 children over {a, ' ', 'x', newline+blanks, comment})", c6, func() []*doc.Tree { return uniMixedWS(3) }, "C03"),
 		hostSpace("Pos1/4xWide5", "fixed stratum (every 4th) of prefix/child-step[positional] x one parent with 5 children", strideCases(c1, 4), func() []*doc.Tree { return uniWide(5) }, "C03"),
 		hostSpace("Pos4/3xT3", "fixed stratum (every 3rd) of positional child steps inside a predicate x T(<=3)", strideCases(c4, 3), func() []*doc.Tree { return uniT(3) }, "C03"),
 		hostSpace("Pos3xT3", "(F)[n] x T(<=3)", c3, func() []*doc.Tree { return uniT(3) }, "C03"),
